@@ -68,7 +68,7 @@ pub fn cases(tier: Tier) -> Vec<Case> {
     let split = |p: Aff, f0: Aff, f1: Aff| TSpec::Dec(p, vec![Some(TSpec::Leaf(f0)), Some(TSpec::Leaf(f1))]);
     let mut pairs: Vec<(TSpec, TSpec)> = vec![];
     let s13 = 2f64.powi(-13);
-    for (pa, pb) in [(r1(&[s13], 0.0), r1(&[1.0], 1.0 / 256.0)), (r1(&[-s13], 0.0), r1(&[1.0], -1.0 / 256.0)), (r1(&[1.0], 0.0), r1(&[1.0], 2f64.powi(-28))), (r1(&[s13], s13), r1(&[-1.0], -1.0 - 1.0 / 512.0))] {
+    for (pa, pb) in [(r1(&[1.0], 1.0), r1(&[1.0], 1.0 + f64::EPSILON)), (r1(&[1.0], 1.0), r1(&[1.0], 1.0)), (r1(&[s13], 0.0), r1(&[1.0], 1.0 / 256.0)), (r1(&[-s13], 0.0), r1(&[1.0], -1.0 / 256.0)), (r1(&[1.0], 0.0), r1(&[1.0], 2f64.powi(-28))), (r1(&[s13], s13), r1(&[-1.0], -1.0 - 1.0 / 512.0))] {
         pairs.push((split(pa.clone(), r1(&[1.0], 16.0), r1(&[2.0], 32.0)), split(pb.clone(), r1(&[4.0], 64.0), r1(&[8.0], 128.0))));
         pairs.push((split(pb, r1(&[1.0], 16.0), r1(&[2.0], 32.0)), split(pa, r1(&[4.0], 64.0), r1(&[8.0], 128.0))));
     }
@@ -83,7 +83,11 @@ pub fn cases(tier: Tier) -> Vec<Case> {
         pairs.push((split(r1(&ra, ta), r1(&[1.0, 0.0], 16.0), r1(&[2.0, 0.0], 32.0)), split(r1(&rb, tb), r1(&[4.0, 0.0], 64.0), r1(&[8.0, 0.0], 128.0))));
     }
     for (a, b) in pairs {
-        for op in ['+', '-'] {
+        for op in ['+', '-', '/'] {
+            // (division only where no coefficient of the divisor is zero: the one-input pairs)
+            if op == '/' && b.aff().indim != 1 {
+                continue;
+            }
             out.push(Case::TreeTree { a: a.clone(), b: b.clone(), op, elim_a: false });
             out.push(Case::TreeTree { a: a.clone(), b: b.clone(), op, elim_a: true });
         }
@@ -170,9 +174,10 @@ pub fn run_case(c: &Case) -> CaseOut {
         Case::TreeTree { a, b, op, elim_a } => {
             let rec = json!({"a": a.to_json(), "b": b.to_json(), "op": op.to_string(), "a_eliminated_first": elim_a});
             // operand storage: every combination of row-major / column-major matrices, re-used indices
-            let lsel = (a.n_nodes() * 3 + b.n_nodes() + (*op as usize)) % 4;
-            let mut ta: AffTree<2> = a.build_layout([0u8, 3, 2, 3][lsel]);
-            let tb: AffTree<2> = b.build_layout([3u8, 0, 3, 1][lsel]);
+            // (incl. depth-first against interleaved: the same indices with the children attached in the other order)
+            let lsel = (a.n_nodes() * 3 + b.n_nodes() + (*op as usize)) % 6;
+            let mut ta: AffTree<2> = a.build_layout([0u8, 3, 2, 3, 0, 4][lsel]);
+            let tb: AffTree<2> = b.build_layout([3u8, 0, 3, 1, 4, 0][lsel]);
             let sa0 = snap(&ta);
             if *elim_a {
                 if catch(|| ta.infeasible_elimination()).is_err() {
